@@ -231,6 +231,7 @@ static void runHistory(const Job& j) {
 static void runScript(const Job& j) {
 	Session* s = new Session();
 	make(*s, j, "");
+	Mon* mon2 = NULL;
 	std::string lastSer;
 	for (auto& op : j.script) {
 		if (op.first != "OP") continue;
@@ -254,10 +255,13 @@ static void runScript(const Job& j) {
 			else if (o == "validate") { validate(*s); }
 			else if (o == "destroy") { delete s; s = NULL; }
 			else if (o == "vars") { dumpEnd(*s, j); }
+			else if (o == "mon2add") { if (!mon2) { mon2 = new Mon(); mon2->ip = &s->ip; mon2->p = "M2 "; } s->ip.addMonitor(mon2); }   // a second monitor attached / detached while the session runs
+			else if (o == "mon2del") { if (mon2) s->ip.removeMonitor(mon2); }
 		} catch (Event e) { *out << "THROW " << oneline(e.name) << "\n"; }
 		catch (std::exception& e) { *out << "THROWSTD " << oneline(e.what()) << "\n"; }
 	}
 	if (s) { dumpEnd(*s, j); delete s; }
+	delete mon2;
 }
 
 int main(int argc, char** argv) {
